@@ -1,5 +1,4 @@
 import NitroVerif.Lemmas.SourceMap
-import NitroVerif.Props.C20
 /-!
 # C06 — emitted source maps are valid and point at the defining GraphQL tokens
 
@@ -245,14 +244,14 @@ theorem file_remap_imported_counterexample :
     sourceFiles (fileIndicesOpOld 1 2 1) = [0, 1] := by
   decide
 
-/-- `print_source_map_json` writes `sources[i] = relative_path(generated file, source file i)`; the
-    map lies in the generated file's directory, so a consumer resolves the entry against that
-    directory: by C20 (`resolve_relative`) this is the source file's normalised location, and
-    `relative_path` does not panic — for all absolute, non-climbing paths. -/
-theorem sources_resolve (generated source : Paths.P)
-    (hg : Paths.AbsNoClimb generated) (hs : Paths.AbsNoClimb source) :
-    ∃ entry, Paths.relative generated source = some entry ∧
-      Paths.resolve generated entry = Paths.normalize source :=
-  Paths.resolve_relative generated source hg hs
+/-
+`sources_resolve` (DESIGN §4-C06): `print_source_map_json` writes
+`sources[i] = relative_path(generated file, source file i)` and the map lies in the generated file's
+directory, so resolving the entry against that directory gives the source file's normalised location.
+This is literally C20's `Paths.resolve_relative` (for all absolute, non-climbing paths) and is NOT
+restated here: importing `Props/C20` would couple the two properties' builds (a thorough run of one
+deletes and rebuilds the other's object files while it is being audited). On the real code the clause is
+checked by O: every `sources` entry of every emitted map is resolved against the file system.
+-/
 
 end NitroVerif.SourceMap
